@@ -129,6 +129,13 @@ theorem stepU_field {p : List Char} {u : Update} (h : stepU p = .ok u) : partFie
 /-- two parts do not set the same keyword -/
 def Distinct (p q : List Char) : Prop := ∀ f, partField p = some f → partField q ≠ some f
 
+instance (p q : List Char) : Decidable (Distinct p q) :=
+  match h : partField p with
+  | none => isTrue (fun f hf => by rw [h] at hf; cases hf)
+  | some f =>
+    if hq : partField q = some f then isFalse (fun hd => hd f h hq)
+    else isTrue (fun g hg => by rw [h] at hg; cases hg; exact hq)
+
 theorem Distinct.symm {p q : List Char} (h : Distinct p q) : Distinct q p :=
   fun f hq hp => h f hp hq
 
